@@ -26,7 +26,8 @@ REQUIRED_COUNTERS = {"observations": {"quick": 20000, "thorough": 400000},
                      "thread_switches_between_observations": {"quick": 1000, "thorough": 20000},
                      "stub_checks": {"quick": 3000, "thorough": 60000},
                      "linepause_cases": {"quick": 50, "thorough": 50},
-                     "observations_through_contextvars": {"quick": 1000, "thorough": 20000}}
+                     "observations_through_contextvars": {"quick": 1000, "thorough": 20000},
+                     "nodes_below_a_generator_based_manager": {"quick": 500, "thorough": 10000}}
 SHARD_TIMEOUT = {"quick": 400, "thorough": 5400}
 INTERPS = ["3.12", "3.11", "3.10", "3.9"]
 
@@ -189,11 +190,35 @@ def worker(spec):
                 if k == "fill":
                     fill_context(Context(obj=NodeMgr(ch), is_async=False))
                     return False
+                if k == "gcm":
+                    # through the real contextlib glue: a generator-based manager whose generator holds the node's
+                    # manager open; the options in force below it are still those of the enclosing extraction
+                    g = gcm_carrier(ch)
+                    next(g)
+                    try:
+                        s = extract_child(g, for_task=False)
+                        tls.gcm_nodes = getattr(tls, "gcm_nodes", 0) + 1
+                    finally:
+                        g.close()
+                    return bool(ch["raises"])
         except HookBoom:
             return True
         except RuntimeError:
             return True  # extract_outermost with no frames
         return False
+
+    import contextlib
+
+    @contextlib.contextmanager
+    def gcm_holding(mgr):
+        with mgr:
+            yield
+
+    def gcm_carrier(ch):
+        # a parked generator whose frame holds a generator-based manager open, whose generator in turn holds
+        # the node's manager open
+        with gcm_holding(NodeMgr(ch)):
+            yield 1
 
     @unwrap_stackitem.register(NodeItem)
     def _unwrap_node(it):
@@ -208,7 +233,7 @@ def worker(spec):
     def gen(depth, parent_eff, top):
         counter[0] += 1
         kinds = ["extract", "extract", "outermost", "fill"] if top else \
-            ["extract", "extract", "outermost", "child", "child_task", "fill"]
+            ["extract", "extract", "outermost", "child", "child_task", "fill"] + (["gcm", "gcm"] if parent_eff[0] else [])
         k = rng.choice(kinds)
         wc = rng.random() < 0.5
         rc = rng.random() < 0.5
@@ -235,6 +260,7 @@ def worker(spec):
         tls.problems = []
         tls.after_raise = 0
         tls.stub_checks = 0
+        tls.gcm_nodes = 0
         k = node["kind"]
         checkpoint()
         try:
@@ -271,6 +297,7 @@ def worker(spec):
         except Exception as ex:
             # an internal assertion tripping further down is not a refusal (and vanishes under -O)
             problems.append("extract_child outside an extraction did not refuse; it failed later with %r" % (ex,))
+        res.count("nodes_below_a_generator_based_manager", tls.gcm_nodes)
         return problems, list(tls.obs), tls.after_raise, tls.stub_checks
 
     def account(node, obs, after_raise, stubs, threaded):
